@@ -75,7 +75,7 @@ def build_harness(race=False, cmd="mktsverif"):
     return out
 
 
-def run_cases(binary, cases, timeout=600, env=None, per_case_timeout=None, tag="cases"):
+def run_cases(binary, cases, timeout=600, env=None, per_case_timeout=None, tag="cases", stderr_tail=3000):
     """Run case scripts [{'id':..,'ops':[..]}] through the driver.
 
     Returns {id_json: obs_list | {'died': exit_status, 'stderr': tail}}.  If the driver process dies
@@ -100,7 +100,7 @@ def run_cases(binary, cases, timeout=600, env=None, per_case_timeout=None, tag="
         try:
             p = subprocess.run([binary, "cases", "--in", fin, "--out", fout, "--from", str(start)],
                                env=env or GOENV, stdout=subprocess.PIPE, stderr=subprocess.PIPE, timeout=remaining)
-            rc, err = p.returncode, p.stderr[-3000:].decode("utf-8", "replace")
+            rc, err = p.returncode, p.stderr[-stderr_tail:].decode("utf-8", "replace")
             out_tail = p.stdout[-3000:].decode("utf-8", "replace")
         except subprocess.TimeoutExpired as e:
             rc, err, out_tail = -9, "timeout", ""
